@@ -301,6 +301,11 @@ def get_logical_instruction_at_offset(
             if python_36:
                 arg = code2num(bytecode, i) | extended_arg
                 extended_arg = (arg << 8) if opname == "EXTENDED_ARG" else 0
+                # From 3.11 on dis reports an operand as the signed 32-bit int
+                # the interpreter keeps it in: a prefix past the upper limit
+                # wraps to a negative integer.
+                if opc.version_tuple >= (3, 11) and extended_arg >= 2**31:
+                    extended_arg -= 2**32
                 # FIXME: Python 3.6.0a1 is 2, for 3.6.a3 we have 1
                 i += 1
             else:
